@@ -316,6 +316,7 @@ def fraction_carrier_rule(F, rep):
     import mirutil
     rid = rep.rule("R14.5", "the fractional seconds of a literal reach the nanosecond component of the time as decimal digits: no f32 / f64 parse and no float-to-integer cast in its data slice")
     n_sites = 0
+    converters = set()
     for n, b in sorted(F.bodies.items()):
         if "dmntk_feel::temporal" not in n:
             continue
@@ -352,6 +353,13 @@ def fraction_carrier_rule(F, rep):
                             if rv[0] in ("Ref", "AddrOf", "RawPtr") and isinstance(rv[2], list) and rv[2] and isinstance(rv[2][0], int):
                                 ls.add(rv[2][0])
                         work.extend(ls - seen)
+                # functions of the temporal module that turn the fraction *text* into the number (a &str parameter, an integer result) are folded on representative texts below
+                near = [bb for nn, bb in F.bodies.items() if nn == n or nn.startswith(n + "::{closure")]
+                for p_ in {bl["t"][1]["f"].get("p") or "" for bb in near for bl in bb["blocks"] if bl["t"][0] == "call"}:
+                    if True:
+                        hb = F.bodies.get(p_)
+                        if p_.startswith("dmntk_feel::temporal") and hb is not None and hb.get("argc") == 1 and "str" in F.ty(hb, hb["locals"][1]) and re.search(r"^u(32|64|size)$", F.ty(hb, hb["locals"][0])):
+                            converters.add(p_)
                 key = "%s:%s" % (n.split("::")[-1], st[-1])
                 if floats:
                     rep.violation(rid, "carrier:%s" % n.split("::")[-1], "%s builds the time's nanoseconds through %s: decimal fractions such as .0157 have no exact binary representation and come out one "
@@ -360,6 +368,34 @@ def fraction_carrier_rule(F, rep):
                     rep.ok(rid, key, "no binary floating point value in the data slice of the nanosecond component")
     if not n_sites:
         rep.undecided(rid, "sites", "no function of the temporal module builds a FeelTime from a computed nanosecond value")
+    # the conversion of the fraction text, folded on representative texts: `.d1..dk` denotes d1..dk padded / cut to nine digits
+    import strfold
+    from hireval import Evaluator, TooManyPaths
+    for cv in sorted(converters):
+        probs, und = [], 0
+        for t in (".5", ".0157", ".123456789", ".1234567891", ".000000001", ".999999999", ".10"):
+            ev = Evaluator(F, ints=True, max_paths=400)
+            sf = strfold.StrFold(ev)
+            ev.call_hook = sf.hook
+            try:
+                outs = ev.run_fn(cv, [("lit", t)])
+            except (TooManyPaths, ValueError, KeyError, RecursionError):
+                outs = []
+            vals = {v[1] if isinstance(v, tuple) and v[0] == "lit" and isinstance(v[1], int) else None for _, v in outs}
+            if len(vals) != 1 or None in vals:
+                und += 1
+                continue
+            want = int((t[1:] + "000000000")[:9])
+            got = vals.pop()
+            if got != want:
+                probs.append("%s is read as %d ns, it denotes %d ns" % (t, got, want))
+        key = "fraction:%s" % cv.split("::")[-1]
+        if probs:
+            rep.violation(rid, key, "%s: %s" % (cv, "; ".join(probs[:3])), F.bodies[cv]["file"])
+        elif und:
+            rep.undecided(rid, key, "%d of 7 representative fraction texts do not fold to a number" % und)
+        else:
+            rep.ok(rid, key, "7 representative fraction texts fold to their nanosecond value")
 
 
 # ======================================================================================================
